@@ -11,6 +11,11 @@ CHECKS = {
          "BFS over registration/subscription histories (depth 2, thorough 3) after a connect; in every reached state all 2304 PUBLISH flag/type/id/msgid/payload variants plus payload sizes across the header-form boundary and MaxPayloadLength are sent; the MQTT byte stream is parsed independently and compared with the reference (exactly one PUBLISH with same payload/retain/DUP/QoS/msg id and the denoted topic; none when the id denotes nothing).",
          "Default schedule; ids in flight between the two sides' views (REGISTER/SUBSCRIBE not yet acknowledged) accept both outcomes.",
          "3 C01"),
+ "C02": ("model_checking",
+         "explicit-state BFS per predefined-topic configuration over subscription histories, broker PUBLISH variants and client answers to REGISTER; oracle = the client's own topic-id resolver",
+         "For each configuration {c1,*} x id{1,2} -> {absent,p/1,p/2} (quick 9, thorough all 81 minus those with duplicate names in one table): BFS over up to 3 client registrations/subscriptions, then every broker PUBLISH (7 topics x QoS 0-2 x retain x payload, thorough x DUP), then every answer to a gateway REGISTER (accept / reject / silence with retry timers): each SN PUBLISH must resolve, by the client's own knowledge, to exactly the broker's topic with the same payload/QoS/retain; unknown names are REGISTERed first.",
+         "Default schedule; configurations whose by-name lookup depends on Go map iteration order are skipped here (covered by C05's repeated lookups).",
+         "3 C02"),
  "C03": ("model_checking",
          "explicit-state BFS over control-packet histories of the real handler + stateless schedule exploration against a broker/client that answers at once",
          "BFS (depth 3, thorough 4) over SUBSCRIBE/UNSUBSCRIBE (all topic forms, QoS 0-2, msg ids 1-2), PUBREL, PINGREQ, DISCONNECT and broker SUBACK (rc 0,1,2,0x80), PUBREC, PUBCOMP, UNSUBACK, PINGRESP: per event exactly one translated packet with the same msg id, resolved filter and requested QoS; SUBACK accepted iff rc<=2 with the granted QoS and the assigned topic id. Plus E2 scenarios in which the broker's answer (and a client reusing the acknowledged msg id) becomes available the moment the request is written, explored over all interleavings within the preemption bound.",
@@ -41,6 +46,21 @@ CHECKS = {
          "Same exploration as C08 with the will-protocol monitor: WILLTOPICREQ/WILLMSGREQ only with the Will flag and in order, MQTT CONNECT only after WILLMSG and carrying the client's will data, at most one MQTT CONNECT per exchange, CONNACK translated (accepted iff broker accepted, else congestion; keep-alive 0 => not supported).",
          "Default schedule; repeated CONNECT exchanges on one connection are the project's deliberate behaviour: only the first broker answer of an exchange is judged.",
          "3 C09"),
+ "C10": ("model_checking",
+         "explicit-state BFS over every prefix of the connect exchange, each followed by a silence suffix in virtual time (polls and the connect timer as discrete events)",
+         "BFS over all prefixes (depth 4, thorough 5) of connect exchanges (CONNECT/AUTH/WILLTOPIC/WILLMSG variants, broker CONNACKs, 2 s pauses; auth off and on); after each prefix 10 s of silence: a session with a CONNECT not yet accepted must have returned by CONNECT time + 5 s + one 100 ms poll, with the broker connection closed.",
+         "Default schedule; virtual clock; in-memory conns with faithful read-deadline polling.",
+         "3 C10"),
+ "C13": ("model_checking",
+         "explicit-state BFS over session histories x every termination cause (crash-point enumeration) + stateless schedule exploration of causes racing with in-flight events and timers",
+         "BFS (depth 5, thorough 7; auth off/on) reaching disconnected/connecting/active/asleep/awake and pending client and broker exchanges; in every state each of 7 termination causes is injected and after 300 ms of polls the monitor checks: returned within one poll interval, broker conn closed, DISCONNECT to the client exactly when it was active/awake and did not disconnect itself, no session goroutine alive after firing all remaining timers, nothing sent after return. E2 scenarios explore the cause racing with a retry/connect timer or an incoming publish within a preemption bound.",
+         "BFS part: default schedule. E2: preemption bound 2 (thorough 3). Goroutine accounting = threads spawned through the overlay's vsched.Go (all go statements and errgroup.Go of the explored packages).",
+         "3 C13"),
+ "C14": ("model_checking",
+         "same exploration as C13 (states x termination causes, plus E2 races) with the broker-side byte stream parsed independently",
+         "In every explored state and for every termination cause: an MQTT DISCONNECT is written iff the cause is the client's DISCONNECT without duration (then it is the last packet before close); going to sleep, shutdown, broker close, decode errors and illegal packets never produce one.",
+         "As C13.",
+         "3 C14"),
  "C18": ("model_checking",
          "stateless model checking of the real transactions code: all interleavings within a preemption bound under a cooperative scheduler (virtual timers as choices)",
          "Every interleaving (within the stated preemption bound; quick 3, thorough iterates 3..8) of Success/Fail/Proceed/timer expiry/cancellation threads on the real RetryTransaction and TimedTransaction, with a monitor evaluated at every scheduling step (Done closes once, Err constant afterwards, completion callback exactly once, no retry callback after Done, no panic). This is the level at which the property is stated: it quantifies over schedules.",
